@@ -2,5 +2,6 @@ SPECIFICATION Spec
 CONSTANTS
   StationLegacySkip = 104
   StationRandMinVer = 3
+  ClientPortSource = "session"
 INVARIANTS Agreement OldClients443 RandomOnlyIfSubnetAllows
 CHECK_DEADLOCK FALSE
